@@ -518,3 +518,44 @@ M('c01-override-uri-template-only-when-unset', 'C01', 'R17', F,
 # negative controls (exit 0): the three stores reordered; one tuple assignment `node.method_map, node.resource, node.uri_template = ...`;
 # `target = node` is NOT understood (stores on two names: exit 1 is avoided because each name's group is complete only if all
 # three go through the same name -- verified: aliasing all three stores through `target` is silent)
+
+# ---------------------------------------------------------------- wave 9
+# R7 the (single, single) cell must be unconditional: a value-dependent answer is a verdict (s9-c01-1)
+SS = "                return other.is_var and not other.is_complex\n"
+M('c01-conflict-same-field-same-converter-allowed', 'C01', 'R7', F, SS,
+  "                if not other.is_var or other.is_complex:\n                    return False\n"
+  "                return (other.var_name, [c[1] for c in other.var_converter_map]) != (\n"
+  "                    self.var_name,\n                    [c[1] for c in self.var_converter_map],\n                )\n")
+M('c01-conflict-only-for-different-names', 'C01', 'R7', F, SS,
+  "                return other.is_var and not other.is_complex and self.var_name != other.var_name\n")
+M('c01-conflict-same-name-early-out', 'C01', 'R7', F, SS,
+  "                if self.var_name == other.var_name:\n                    return False\n" + SS)
+M('c01-conflict-unless-both-converted', 'C01', 'R7', F, SS,
+  "                return other.is_var and not other.is_complex and not (self.var_converter_map and other.var_converter_map)\n")
+# negative controls (exit 0): `... and self.raw_segment != segment` (different by the caller's contract); `single = ...; return bool(single)`;
+# `if other.is_var: return not other.is_complex; return False`; `if self.var_name == other.var_name: return True` in front;
+# `if other.var_name is None: return False; return not other.is_complex`.  An opaque helper call in the cell stays exit 2.
+
+# R9 hand-quoted literal: the escape chain is evaluated on {backslash, ', ", CR, LF, ordinary} (s9-c01-2)
+LIT_T = "template = '{0}if path[{1}] == {2!r}:\\n{3}'"
+LIT_Q = "template = \"{0}if path[{1}] == '{2}':\\n{3}\""
+LIT_A = "            self._literal,\n"
+M2('c01-literal-hand-quoted-backslash-unescaped', 'C01', 'R9', [
+    {'file': F, 'old': LIT_T, 'new': LIT_Q},
+    {'file': F, 'old': LIT_A, 'new': "            self._literal.replace(\"'\", \"\\\\'\"),\n"}])
+M2('c01-literal-hand-quoted-quote-unescaped', 'C01', 'R9', [
+    {'file': F, 'old': LIT_T, 'new': LIT_Q},
+    {'file': F, 'old': LIT_A, 'new': "            self._literal.replace('\\\\', '\\\\\\\\'),\n"}])
+M2('c01-literal-hand-quoted-escape-order', 'C01', 'R9', [
+    {'file': F, 'old': LIT_T, 'new': LIT_Q},
+    {'file': F, 'old': LIT_A, 'new': "            self._literal.replace(\"'\", \"\\\\'\").replace('\\\\', '\\\\\\\\'),\n"}])
+# negative controls: backslash, quote, \n and \r escaped in that order between ' or " quotes (exit 0); `{2}` fed by
+# repr(self._literal) (exit 0); backslash + quote escaped but not the line breaks (exit 2: whether a literal segment can hold a
+# line break is not decided)
+
+# R18 the field pattern's classes exclude exactly the delimiters (s9-c01-3)
+M('c01-argstr-class-excludes-paren', 'C01', 'R18', F, "(?P<argstr>[^}]*)", "(?P<argstr>[^})]*)")
+M('c01-argstr-class-excludes-quotes', 'C01', 'R18', F, "(?P<argstr>[^}]*)", "(?P<argstr>[^}\"]*)")
+M('c01-cname-class-runs-over-paren', 'C01', 'R18', F, "(?P<cname>[^}\\(]*)", "(?P<cname>[^}]*)")
+M('c01-fname-class-excludes-paren', 'C01', 'R18', F, "(?P<fname>[^}:]*)", "(?P<fname>[^}:(]*)")
+# negative controls (exit 0): `[^\}]*`, the lazy `[^}]*?`; a `\w*` class is exit 2 (category items are not read)
